@@ -94,6 +94,7 @@ pub const STRESS: &[&str] = &[
     "shortened-before-remembered",
     "rdata-names-all-types",
     "many-identical",
+    "near-equal-names",
 ];
 
 /// Stress families of the property's quantifier, as abstract messages (encoded pointer-free).
@@ -206,10 +207,50 @@ pub fn stress(rng: &mut Rng, fam: usize) -> Msg {
             m.sec[2].push(rec(z.clone(), T_DNAME, RData::Dname(Name(vec![b"dn".to_vec()]).concat(&z))));
             m.sec[2].push(rec(z.clone(), T_TXT, RData::Opaque(q.to_wire())));
         }
-        _ => {
+        9 => {
             let n = crate::gen::valid::gen_name(rng, &cfg, 120);
             for _ in 0..rng.range(10, 60) {
                 m.sec[rng.below(3)].push(a_rec(n.clone()));
+            }
+        }
+        _ => {
+            // names that differ from each other in exactly one byte (one bit, one step, or the split into
+            // labels): only ASCII-case variants may share a suffix entry, everything else must stay distinct
+            let base_labels: Vec<Vec<u8>> = vec![
+                (0..rng.range(2, 8)).map(|_| *rng.pick(b"@[]^_`{}~09az-!*+=")).collect(),
+                (0..rng.range(2, 12)).map(|_| *rng.pick(&[0x80u8, 0xa0, 0xc1, 0xe1, b'A', b'a', b'[', b'{', b'@', b'`', b'1', b'q'])).collect(),
+                b"example".to_vec(),
+            ];
+            let base = Name(base_labels);
+            let mut variants = vec![base.clone()];
+            for _ in 0..rng.range(3, 9) {
+                let mut v = base.clone();
+                let li = rng.below(2);
+                let bi = rng.below(v.0[li].len());
+                let c = v.0[li][bi];
+                let nc = match rng.below(4) {
+                    0 | 1 => c ^ 0x20,
+                    2 => c.wrapping_add(1),
+                    _ => c ^ 0x80,
+                };
+                if !(nc < 0x21 || nc == 0x7f || nc == b'.' || nc == b'\\') {
+                    v.0[li][bi] = nc;
+                }
+                if rng.chance(1, 4) && v.0[0].len() >= 2 {
+                    // same bytes, different label split
+                    let cut = rng.range(1, v.0[0].len() - 1);
+                    let tail = v.0[0].split_off(cut);
+                    v.0.insert(1, tail);
+                }
+                variants.push(v);
+            }
+            for v in &variants {
+                let host = Name(vec![b"www".to_vec()]).concat(v);
+                m.sec[rng.below(3)].push(a_rec(host.clone()));
+                m.sec[rng.below(3)].push(rec(v.clone(), T_NS, RData::Name(Name(vec![b"ns".to_vec()]).concat(v))));
+                if rng.chance(1, 3) {
+                    m.sec[rng.below(2)].push(rec(v.clone(), T_MX, RData::Mx(5, host)));
+                }
             }
         }
     }
